@@ -132,7 +132,7 @@ pub fn c05(rep: &mut Rep) {
             for (pi, p0) in prods.iter().enumerate() {
                 for (uj, u1) in uses.iter().enumerate() {
                     for (pj, p1) in prods.iter().enumerate() {
-                        for dup in [false, true] {
+                        for dup in [0u8, 1, 2] {
                             let n = 2;
                             let ext = |v: &[f32]| -> Vec<f32> { (0..n).map(|i| v[i % v.len()]).collect() };
                             let mut lines = vec![];
@@ -140,7 +140,7 @@ pub fn c05(rep: &mut Rep) {
                             for (id, u, p) in [(ids[(ui + pi) % 3], u0, p0), (ids[(uj + pj + 1) % 3], u1, p1)] {
                                 let uv = ext(u);
                                 if uv.iter().any(|v| *v > 0.0) { lines.push(format!("{},CONSUMO,ACS,{},{}", id, carrier, fmtv(&uv))); decl.push((id, false, uv.clone())); }
-                                if dup && uv.iter().any(|v| *v > 0.0) { lines.push(format!("{},CONSUMO,CAL,{},{}", id, carrier, fmtv(&uv))); decl.push((id, false, uv)); }
+                                if dup > 0 && uv.iter().any(|v| *v > 0.0) { lines.push(format!("{},CONSUMO,{},{},{}", id, if dup == 1 { "CAL" } else { "NEPB" }, carrier, fmtv(&uv))); decl.push((id, false, uv)); }
                                 if let Some(p) = p { let pv = ext(p); lines.push(format!("{},PRODUCCION,{},{}", id, carrier, fmtv(&pv))); decl.push((id, true, pv)); }
                             }
                             lines.push(format!("7,CONSUMO,CAL,GASNATURAL,{}", fmtv(&vec![9.0; n])));
@@ -319,6 +319,16 @@ fn buildings(mask: u32) -> Vec<String> {
         if has(3) { v.push("1,CONSUMO,CAL,ELECTRICIDAD,10\n1,CONSUMO,CAL,EAMBIENTE,20\n1,PRODUCCION,EAMBIENTE,50".to_string()); }
     }
     if has(1) { v.push("1,CONSUMO,CAL,GASNATURAL,100\n1,SALIDA,CAL,90\n1,AUX,2".to_string()); }
+    if has(0) && has(3) {
+        // non-EPB use of ambient heat only (no non-EPB electricity), surplus ambient production exported to it
+        v.push("1,CONSUMO,CAL,ELECTRICIDAD,10\n1,CONSUMO,NEPB,EAMBIENTE,20\n1,CONSUMO,CAL,EAMBIENTE,5\n1,PRODUCCION,EAMBIENTE,40".to_string());
+        v.push("2,SALIDA,ACS,30\n2,CONSUMO,ACS,EAMBIENTE,20\n2,CONSUMO,ACS,ELECTRICIDAD,10\n5,PRODUCCION,EL_INSITU,30".to_string());
+    }
+    if has(0) {
+        v.push("1,CONSUMO,CAL,ELECTRICIDAD,10\n1,CONSUMO,NEPB,TERMOSOLAR,8\n1,PRODUCCION,TERMOSOLAR,20\n1,CONSUMO,ACS,TERMOSOLAR,4".to_string());
+        v.push("1,CONSUMO,ILU,ELECTRICIDAD,10,0\n1,PRODUCCION,EL_INSITU,0,30\n1,CONSUMO,NEPB,ELECTRICIDAD,0,12".to_string());
+    }
+    if has(0) && has(1) && has(2) { v.push("1,CONSUMO,CAL,ELECTRICIDAD,5\n2,PRODUCCION,EL_COGEN,30\n2,CONSUMO,COGEN,GASNATURAL,50\n2,CONSUMO,COGEN,BIOMASA,30\n1,CONSUMO,NEPB,ELECTRICIDAD,8".to_string()); }
     if has(2) { v.push("1,CONSUMO,ACS,BIOMASA,40".to_string()); }
     if has(4) { v.push("1,CONSUMO,CAL,RED1,40\n1,CONSUMO,REF,RED2,10".to_string()); }
     v
